@@ -914,6 +914,25 @@ func (c *compiler) compileIndex(e *Term, x *Index) error {
 	return c.compileCall("_slice", []*Query{{Term: e}, x.End, x.Start})
 }
 
+// Compiles e[x]?. The index expressions are evaluated against the input of
+// the whole term, as in e[x], and only the errors of the indexing itself are
+// suppressed, not those of e and of the index expressions.
+func (c *compiler) compileIndexOptional(e *Term, x *Index) error {
+	if err := c.compileIndex(e, x); err != nil {
+		return err
+	}
+	// the indexing is the last instruction, wrap it by try
+	i := len(c.codes) - 1
+	c.codes = append(c.codes[:i],
+		&code{op: opforktrybegin, v: i + 4},
+		c.codes[i],
+		&code{op: opforktryend},
+		&code{op: opjump, v: i + 5},
+		&code{op: opbacktrack},
+	)
+	return nil
+}
+
 func (c *compiler) compileFunc(e *Func) error {
 	if len(e.Args) == 0 {
 		if f, v := c.lookupFuncOrVariable(e.Name); f != nil {
@@ -1563,7 +1582,15 @@ func (c *compiler) compileTermSuffix(e *Term, s *Suffix) error {
 		c.append(&code{op: opiter})
 		return nil
 	} else if s.Optional {
+		if x := e.Index; e.Type == TermTypeIndex && len(e.SuffixList) == 0 {
+			return c.compileIndexOptional(&Term{Type: TermTypeIdentity}, x)
+		}
 		if len(e.SuffixList) > 0 {
+			if x := e.SuffixList[len(e.SuffixList)-1].Index; x != nil {
+				// no need to clone (ref: compileTerm)
+				e.SuffixList = e.SuffixList[:len(e.SuffixList)-1]
+				return c.compileIndexOptional(e, x)
+			}
 			if u := e.SuffixList[len(e.SuffixList)-1].toTerm(); u != nil {
 				// no need to clone (ref: compileTerm)
 				e.SuffixList = e.SuffixList[:len(e.SuffixList)-1]
